@@ -464,6 +464,17 @@ class ModuleEnv:
         psorts = {k: parse_sort(v) for k, v in c.get('params', {}).items()}
         loose_failed = False
         for n in names:
+            if n in psorts and isinstance(bind[n], VSeq) and isinstance(psorts[n], tuple) and psorts[n][0] == 'list':
+                # materialise a lazily described sequence as a list: fresh list + point-wise axiom
+                seq = bind[n]
+                lst = fresh_value(psorts[n], 'mat')
+                k = z3.Int(fresh_name('k'))
+                el = leaves(seq.get(k), psorts[n][1])
+                tl = leaves(list_get(lst, k), psorts[n][1])
+                st.define(z3.And(lst.length == seq.length,
+                                 z3.ForAll([k], z3.Implies(z3.And(0 <= k, k < lst.length), z3.And(*[a == b for a, b in zip(tl, el)])))))
+                bind[n] = lst
+        for n in names:
             if n in psorts:
                 try:
                     bind[n] = coerce(bind[n], psorts[n])
@@ -531,6 +542,12 @@ class ModuleEnv:
                 raise ForkReq(t, fkey)
             if d is True:
                 self._raise_with_state(c, exc, recv, env, node, eng, st, sb, sub)
+        if c.get('result_expr'):       # definitional contract: the result IS this term (no fresh symbol; usable inside lazy sequences)
+            sub.defs = []
+            v = eng.ev(ast.parse(c['result_expr'], mode='eval').body, sub)
+            for dfn in sub.defs:
+                st.define(dfn)
+            return coerce(v, parse_sort(c['result'])) if c.get('result') else v
         if c.get('is_generator'):
             ys = fresh_value(('list', parse_sort(c['yield_sort'])), 'ys')
             st.pc.append(ys.length >= 0)
@@ -639,7 +656,16 @@ class ModuleEnv:
         if name == 'ufe':       # ufe('name', e1, e2, ...): uninterpreted function over opaque elements, returning an element
             from .sorts import ELEM
             fname = vals[0].py
-            xs = [coerce(v, 'elem').t for v in vals[1:]]
+            int2elem = z3.Function('int2elem', z3.IntSort(), ELEM)
+            def _arg(v):
+                if isinstance(v, VInt):
+                    return int2elem(v.t)
+                if isinstance(v, VBool):
+                    return int2elem(z3.If(v.t, 1, 0))
+                if isinstance(v, VConst) and isinstance(v.py, str):
+                    return z3.Const('strconst_' + v.py, ELEM)      # distinct names are NOT assumed distinct values (sound: only equalities of the same literal are used)
+                return coerce(v, 'elem').t
+            xs = [_arg(v) for v in vals[1:]]
             f = z3.Function('ufe_' + fname, *([ELEM] * (len(xs) + 1)))
             return VU(f(*xs), 'elem')
         if name == 'ub':        # ub('name', i, j, ...): uninterpreted Boolean function of integers (cell predicates)
